@@ -143,6 +143,11 @@ def gen_cases(rng, ctx):
         l = line("c15_front", [list(cfg)])
         cases.append(Case(l, l, (lambda impl, ext=cfg[0], cr=cfg[1]: "c15_wellformed %d %s" % ((2 if ext else 1) if cr else 0, impl.split()[1] if len(impl.split()) > 1 else "-")),
                           kind="endpoint:socks-upstream", nontrivial=True, meta={"e2e": True, "cfg": list(cfg)}))
+    # UDP through the upstream end to end: the association dialogue and the RFC 1928 section 7 wrapping on the wire
+    for ext, n_, ln, code in ((0, 2, 20, 0), (1, 3, 600, 0), (0, 1, 0, 0), (0, 2, 10, 1), (1, 1, 5, 4)):
+        l = line("c15_udp_front", [[ext, n_, ln, code]])
+        cases.append(Case(l, None, (lambda impl, ext=ext: "c15_wellformed %d %s" % (2 if ext else 1, impl.split()[1] if len(impl.split()) > 1 else "-")),
+                          kind="endpoint:socks-udp-association", nontrivial=True, meta={"e2e_udp": True, "cfg": [ext, n_, ln, code]}))
     # make_auth
     for i in range(300 if thorough else 60):
         u = utf8_string(rng, rng.range(0, 20))
@@ -182,6 +187,30 @@ def judge(case, impl, model, spec, ctx):
     if impl == "999":
         return [("violation", "the SOCKS5 client code panicked (%s)" % case.kind)]
     out = []
+    if case.meta and case.meta.get("e2e_udp"):
+        if impl == "996":
+            ctx.setdefault("skipped_env", []).append(case.kind)
+            return []
+        ext, n_, ln, code = case.meta["cfg"]
+        t = impl.split()
+        st, good, label, controls, relayed, headers_ok, payloads_ok = untok(t[0])
+        ctl = untok(t[1]) if len(t) > 1 else []
+        what = "CONNECT _udp2 through the endpoint with a SOCKS5 upstream (%s authentication), UDP ASSOCIATE answered with reply %d, %d datagrams of %d bytes" % (
+            "extended" if ext else "user/password", code, n_, ln)
+        if spec is not None and spec.strip() != "1":
+            out.append(("violation", "%s: the association dialogue the endpoint wrote is not a sequence of well-formed messages: %s" % (what, ctl[:60])))
+        elif len(ctl) < 10 or ctl[-10:-6] != [5, 3, 0, 1]:
+            out.append(("violation", "%s: the request is not UDP ASSOCIATE with an IPv4 address: %s" % (what, ctl[-12:])))
+        elif code != 0:
+            if st == 200:
+                out.append(("violation", "%s: answered 200 although the SOCKS5 server refused the association" % what))
+        elif st != 200:
+            out.append(("violation", "%s: answered %d" % (what, st)))
+        elif relayed != n_ or not headers_ok or payloads_ok != n_:
+            out.append(("violation", "%s: the relay received %d datagrams, headers per RFC 1928 section 7: %d, payloads intact: %d" % (what, relayed, headers_ok, payloads_ok)))
+        elif good != n_ or label != n_:
+            out.append(("violation", "%s: %d replies unwrapped with the right payload, %d with the right addresses, of %d" % (what, good, label, n_)))
+        return out
     if case.meta and case.meta.get("e2e"):
         if impl == "996":
             ctx.setdefault("skipped_env", []).append(case.kind)
